@@ -7,6 +7,10 @@ from props.vy_common import *
 CONC = ['emp1,emp2,emp3,emp4;trave0;get4', 'emp1,emp2,emp3,emp4,emp5;trave3;get5,get4', 'emp1,emp2,emp3,emp4;trave1;get3,get4;emp5',
         'emp1,emp2,emp3,emp4,emp5;trave4,emp6;get4,get6', 'emp1,emp2;trav;emp3,era1', 'emp1,emp2,emp3,emp4;fer4,emp5;get1,get5',
         'emp1,emp2,emp3;trave2;emp4,era2', 'emp1,emp2,emp3,emp4;itmv2,emp5;get2,era3']
+ITW = [ # erase(iterator) in the middle of the extension list (traversal order: 3 array slots, then the extension list from its head) while
+        # writers want the same bucket: the iterator has to keep the bucket locked until it moves on
+        'emp1,emp2,emp3,emp4,emp5,emp6;fer6,emp8;emp7,era1', 'emp1,emp2,emp3,emp4,emp5,emp6,emp7;fer6,emp8;era7,emp9', 'emp1,emp2,emp3,emp4,emp5,emp6;fer5,emp8;era2,emp7',
+        'emp1,emp2,emp3,emp4,emp5,emp6;trave3;emp7,era2']
 
 
 def seqs(rnd, n, length):
@@ -54,6 +58,8 @@ def run(ctx):
         for s in seqs(rnd, 6 if q else 80, 8):
             jobs.append('vy1%sc/%s;;%s' % (m, rnd.choice(RECL), s))
             jobs.append('vy4%sh/%s;;%s' % (m, rnd.choice(RECL), s))
+    itw = ['vy1iic/ebr0;' + p for p in ITW] + ([] if q else ['vy128%sc/%s;%s' % (m, r, p) for p in ITW for m in ('is', 'sm') for r in ('hp3', 'stamp')])
+    run_vy(ctx, itw, pb=2 if q else 3, max_exec=15000 if q else 100000, max_steps=6000, tagx='w', nsh=len(itw))
     run_vy(ctx, deep, pb=2 if q else 3, max_exec=2500 if q else 40000, max_steps=6000, tagx='d')
     run_vy(ctx, jobs, pb=2 if q else 3, max_exec=300 if q else 30000, max_steps=6000)
     if not q:
